@@ -157,7 +157,6 @@ Proof.
 Qed.
 
 (* ------------------------------------------------------------------ specification of a sub-nest *)
-Definition dflt_level : level := {| l_pop := false; l_src := SFib 0 |}.
 Definition stampR (kind : Z) : list Z -> list Z -> bool := if kind =? K_ITER then lex_lt else lex_le.
 
 Definition hdrs (kk : tkey) (k k' : nat) : list row :=
@@ -170,7 +169,7 @@ Definition addr_scope (kind : Z) : bool := negb (is_zside kind) && negb (kind =?
 
 Definition expect_rows (i : nat) (lv : list level) (pe : list (list Z * env)) (kk : tkey) : list row :=
   let j := Z.to_nat (key_rank kk) in
-  flat_map (fun q => expect_at (nth (j - i) lv dflt_level) (key_kind kk) (key_label kk) [] []
+  flat_map (fun q => expect_at (nth (j - i) lv dflt_level) false (key_kind kk) (key_label kk) [] []
                                (fst q) (snd q))
            (space lv (j - i) pe).
 
@@ -462,7 +461,7 @@ Definition loc_ok (L : level) (pt : list Z) (e : env) (sk : list mev) : Prop :=
     let tr := ltrace (0, None) sk kind label in
     chain (stampR kind) (map (fun x => [fst (fst x)]) tr) = true
     /\ (addr_scope kind = true ->
-        map (fun x => pt ++ [snd (fst x); snd x]) tr = expect_at L kind label [] [] pt e).
+        map (fun x => pt ++ [snd (fst x); snd x]) tr = expect_at L false kind label [] [] pt e).
 
 Lemma GL : forall n i L lv' pt e items fin, length pt = i ->
   Forall (item_ok n i lv' pt) items -> Forall (local i) fin ->
